@@ -100,6 +100,16 @@ CORPUS = [
     # the same defect on the `handle_solvable_loop` branch: y in {0, -1} is finite, every variable is effective
     ("corpus:F141-all-effective",
      "y = 0\nwhile true:\n    x, y = x + 3*y**2 + (1/2)*z + z**2, y + y**2 - 1\n    z = Normal(0, 4)\nend\n", 1),
+    # gen-146 / gen-94 of the first thorough run (seed 0).  F140 behind a temporary, a probabilistic choice and a draw
+    # that is read before it is assigned: at seed 0 the repaired value at n = 4 is 2668/99, one of the exact rationals
+    # that sympy.nsimplify rewrites into a product of radicals (regression of the harness's own arithmetic) ...
+    ("corpus:F140-read-before-draw",
+     "x = 3\nwhile true:\n    t = y**2\n    x = x - t + 1/2 + 2*z {3/4} x - t + 3 + 2*z + z**2\n"
+     "    y = y + 2*t + 1/2 + (1/2)*z + 2*z**2\n    z = Bernoulli(1/2)\nend\n", 1),
+    # ... and F141 where the effective variable inside the non-linear monomial has a non-linear update itself: y is
+    # finite-valued ({0, 1, -1/2}), hence never defective; the randomness sits in the initial block only
+    ("corpus:F141-finite-nonlinear-carrier",
+     "x = Bernoulli(1/3)\ny = 1 - x\nwhile true:\n    x = x/2 + y**2\n    y = y/2 - y**2\nend\n", 2),
 ]
 
 # ------------------------------------------------------------------------------------------------
@@ -379,7 +389,8 @@ def run(tier):
                 rec = {"case": case, "mode": mode, "ti": ti, "target": tg, "kind": "loop", "source": pj,
                        "res_info": {"effective": res.get("effective"), "defective": res.get("defective"),
                                     "is_probabilistic": res.get("is_probabilistic"),
-                                    "n_invariants": res.get("n_invariants")}}
+                                    "n_invariants": res.get("n_invariants"),
+                                    "finite_types": res.get("finite_types")}}
                 records.append(rec)
                 if tg.get("program") is None:
                     rec["status"] = "target-unconvertible"
@@ -737,7 +748,8 @@ def replay(path):
         records.append(rec)
     if mode == "loop":
         for ti, tg in enumerate(res.get("targets", [])):
-            rec = {"case": case, "mode": mode, "ti": ti, "target": tg, "kind": "loop", "source": pj, "res_info": {}}
+            rec = {"case": case, "mode": mode, "ti": ti, "target": tg, "kind": "loop", "source": pj,
+                   "res_info": {"finite_types": res.get("finite_types")}}
             if tg.get("program") is None:
                 continue
             plan_loop(rec, tg, pj, names, symbols, 5, state)
@@ -745,8 +757,12 @@ def replay(path):
     answers = model_answers(state["reqs"])
     for (rec, what), ans in zip(state["slots"], answers):
         rec[what] = ans
-    import harness.findings as F
-    F.load_known_findings = lambda: {"known": []}   # a replay reports the raw verdict
+    # a replay reports the raw verdict; development aid: C14_REPLAY_ATTRIBUTE=1 sends the replayed failure through the
+    # attribution functions of known_findings.json exactly as `run` does (KNOWN-FINDING instead of VIOLATION when
+    # one of them recognises it)
+    if not os.environ.get("C14_REPLAY_ATTRIBUTE"):
+        import harness.findings as F
+        F.load_known_findings = lambda: {"known": []}
     for rec in records:
         if rec["kind"] == "inv":
             rec.pop("cert", None)
